@@ -364,7 +364,9 @@ func canonSet(b *strings.Builder, name string, s py.Object, depth int) {
 			if err != nil {
 				break
 			}
-			items = append(items, Canon(x))
+			var ib strings.Builder
+			canon(&ib, x, depth+1) // depth carried on: a set may (indirectly) contain itself
+			items = append(items, ib.String())
 		}
 	}
 	sort.Strings(items)
